@@ -639,6 +639,23 @@ func driveDiff(seed uint64, n int, size int, em *Emitter) {
 		}
 		targets := append(append([]common.Address{}, addrs...), common.BytesToAddress([]byte{byte(1 + r.Intn(9))}), common.BytesToAddress([]byte{0xd9}))
 		c.root = addrs[0]
+		if r.Chance(60) {
+			// a chain of contracts that hand execution on by DELEGATECALL / CALLCODE (what CALLER, ADDRESS and CALLVALUE are in the
+			// innermost frame depends on how the kinds stack), reachable from the generated code by any call kind
+			h := []common.Address{common.BytesToAddress([]byte{0xc0, 1, 1}), common.BytesToAddress([]byte{0xc0, 1, 2}), common.BytesToAddress([]byte{0xc0, 1, 3})}
+			for k := 0; k < 2; k++ {
+				a := &Asm{}
+				kind := []byte{opDELEGATECALL, opDELEGATECALL, opCALLCODE}[r.Intn(3)]
+				a.PushU(0).PushU(0).PushU(0).PushU(0)
+				if kind == opCALLCODE {
+					a.PushU(uint64(r.Intn(2)))
+				}
+				a.PushBytes(h[k+1][:]).Op(opGAS, kind, opPOP, 0x33, 0x30, 0x34, opPOP, opPOP, opPOP, opSTOP)
+				c.codes[h[k]] = a.Bytes()
+			}
+			c.codes[h[2]] = []byte{0x33, 0x30, 0x34, 0x32, opPOP, opPOP, opPOP, opPOP, opSTOP} // CALLER ADDRESS CALLVALUE ORIGIN
+			targets = append(targets, h[0], h[0])
+		}
 		for k, a := range addrs {
 			pre := &Asm{}
 			if k == 0 && r.Chance(30) {
